@@ -85,6 +85,9 @@ Definition o_act (o : ost) (a : act) : ost :=
         let cv := if fresh then 0 else match o_held o k with Some h => h | None => 0 end in
         mkO true (upd (o_last o) k (Some cv)) (if fresh then upd (o_held o) k None else o_held o) (add_tkey k (o_keys o))
       else o
+  | ATrackV k cv =>
+      (* the client claims version cv; its delta base stays what this node delivered *)
+      if o_sub o then mkO true (upd (o_last o) k (Some cv)) (o_held o) (add_tkey k (o_keys o)) else o
   | AUntrack k _ => mkO (o_sub o) (upd (o_last o) k None) (upd (o_held o) k None) (del_tkey k (o_keys o))
   | _ => o
   end.
@@ -99,6 +102,7 @@ Definition req_ok (o : ost) (fly : list key) (a : act) (reqs : list ver) : bool 
       | [] => (true, [])      (* no request was made (no entry) *)
       | r :: rt =>
           (negb (existsb (Nat.eqb k) (o_keys o) && match o_held o k with None => true | Some _ => false end
+                 && match o_last o k with Some 0 => true | _ => false end   (* ... and did not claim a version *)
                  && negb (existsb (Nat.eqb k) fly)) || Nat.eqb r 0, rt)
       end
   | _ => (true, reqs)
